@@ -1,6 +1,6 @@
 #!/bin/sh
 # run_all.sh [tier] [seed]: run every claimed check once (development helper); prints one line per check
-cd /verif; TIER=${1:-quick}; export VERIF_SEED=${2:-0}
+cd "$(dirname "$0")/.."; TIER=${1:-quick}; export VERIF_SEED=${2:-0}
 for id in $(python3 -c "import json; print(' '.join(c['property_id'] for c in json.load(open('MANIFEST.json'))['checks']))"); do
   s=$(date +%s); out=$(./check $id --tier $TIER 2>/dev/null); rc=$?; e=$(date +%s)
   echo "$id rc=$rc $((e-s))s $(echo "$out" | grep -c KNOWN-FINDING) known $(echo "$out" | grep VIOLATION | head -1 | cut -c1-150)"
